@@ -1,12 +1,14 @@
 """C03 - merging is a complete, ordered, non-destructive override."""
 from vlib import gen_merge
 from checks.outparse import parse_raws, parse_views, NONE, txt, is_subseq
+from gen import extract_facts
+generate_facts = extract_facts.generate
 
 ID = "C03"
-LEAN_MODULES = ["Econf.Props.C03"]
+LEAN_MODULES = ["Econf.Props.C03", "Econf.Props.Tie"]
 THEOREMS = ["Econf.C03_lookup", "Econf.C03_nothing_else", "Econf.C03_no_duplicates", "Econf.C03_base_order",
             "Econf.C03_new_keys_after_base", "Econf.C03_new_groups_last", "Econf.C03_groupless_first", "Econf.C03_bound",
-            "Econf.C03_object", "Econf.C03_merge_spec"]
+            "Econf.C03_object", "Econf.C03_merge_spec", "Econf.Struct.api_frames"]
 RULE = ("pairs of entry lists over {group-less,A,B}x{x,y}: exhaustive up to the tier's length bound, built by parsing and by the setters "
         "on all constructor kinds, plus random larger pairs; non-trivial = merge succeeded and both sides non-empty or one side an "
         "empty object; distinct by (base list, override list, construction)")
